@@ -137,6 +137,25 @@ pub fn jobs(ctx: &Ctx) -> Vec<Job> {
             }
         }
     }
+    // no level given (Q applies) with the version PINNED, at lengths that are capacities (-1, +0, +1) of levels H, M and
+    // Q in the pinned version: the pinned version is used as given when Q fits, and is too small one character later;
+    // whatever a build does with the room a pinned version leaves, it may not overflow it
+    for class in 0..3usize {
+        for v in 1..=40usize {
+            let mut lens = Vec::new();
+            for lv in [oracle::tables::H, oracle::tables::M, oracle::tables::Q] {
+                let c = caps.cap(v, lv, class);
+                lens.extend([c.saturating_sub(1), c, c + 1]);
+            }
+            lens.sort();
+            lens.dedup();
+            for len in lens {
+                let mut j = mk(FAMS[4], class, if (len + v) % 2 == 0 { Some(class) } else { None }, oracle::tables::Q, Some(v), len, &mut k);
+                j.level = None;
+                jobs.push(j);
+            }
+        }
+    }
     // content is not a dimension of the capacity rule - so payloads that BEGIN with something meaningful (byte order
     // marks, URL schemes, GS1/AIM escapes, magic numbers: the dictionary of job.rs) are put exactly at, and 1-3 bytes
     // beyond, capacity thresholds of their own class, with automatic version and with the version below / at the
